@@ -89,7 +89,7 @@ func CoreSize(max int) *rapid.Generator[int] {
 		case 6, 7:
 			m = rapid.IntRange(17, 64).Draw(t, "m")
 		case 8:
-			m = rapid.SampledFrom([]int{80, 256, 800, 8000, 8192}).Draw(t, "m")
+			m = rapid.SampledFrom([]int{80, 128, 256, 512, 800, 1024, 4096, 8000, 8192, 10007, 55440, 65536}).Draw(t, "m")
 		default:
 			m = rapid.IntRange(3, 300).Draw(t, "m")
 		}
